@@ -61,6 +61,10 @@ CHECKS.update({
         text='TLC enumerates every scope kind x pattern kind x disjunction width 1..4 in each event position (1400 shapes, exhaustive) plus the disjunctive alias shapes; each is parsed, decorated with metadata on property/scope/pattern/events and random time bounds (and rebuilt left-nested through the API), and T_C11 requires the recorded canonical_form output - projected with types, times and metadata - to equal HplProps!CanonicalForm element by element, plus same-object, metadata-not-shared and idempotence facts.',
         note='Predicates/aliases inside the shapes come from a small pool; the alias-bound-by-some-alternatives shape is the recorded C14 finding and is skipped here.',
         technique='TLC enumeration of property shapes (MC_Shapes) + trace validation against HplProps!CanonicalForm (T_C11)', design='5/C11'),
+    'C12': dict(
+        text='Bounded model checking of the message-bus machine HplMonitor.tla: for 180 property shapes (all scopes, all patterns, the split event a disjunction, aliases, predicates over the payload, time bounds) the REAL canonical_form output is projected and given to TLC as a constant; TLC explores every timed trace up to the length bound over 6 topics x 2 payloads x time increments and checks in every state Sat(orig) <=> all parts satisfied, under both readings of scope re-activation, and the same for the spec\'s own CanonicalForm; three deliberately wrong decompositions must each produce a counterexample.',
+        note='Trace semantics of HplMonitor are a modelling decision (strong finite-trace reading; docs are informal); bounds in the evidence.',
+        technique='TLC bounded model checking of HplMonitor with the implementation output as a constant (MC_Monitor)', design='5/C12'),
 })
 
 REASON_PENDING = 'check not built yet in this session (planned in DESIGN.md section 5); not claimed until its machinery exists'
